@@ -3462,6 +3462,11 @@ class Session(_SessionClassMethods, EventTarget):
         for state in states:
             if state in self._new:
                 self._new.pop(state)
+                if state.key is not None:
+                    # a flush failed after _register_persistent() put the
+                    # state into the identity map but before it left
+                    # _new (e.g. a pending_to_persistent listener raised)
+                    self.identity_map.safe_discard(state)
             elif self.identity_map.contains_state(state):
                 self.identity_map.safe_discard(state)
                 self._deleted.pop(state, None)
